@@ -3,6 +3,7 @@
 package main
 
 import (
+	"time"
 	_ "unsafe"
 )
 
@@ -14,3 +15,8 @@ var runtimeMapIterHook func(count, B, r, goid uintptr) uintptr
 const haveMapHook = true
 
 func setRuntimeHook(f func(count, B, r, goid uintptr) uintptr) { runtimeMapIterHook = f }
+
+//go:linkname timeNowHook time.verifNowHook
+var timeNowHook func() (time.Time, bool)
+
+func setNowHook(f func() (time.Time, bool)) { timeNowHook = f }
